@@ -28,6 +28,13 @@ class Adapter:
         v = self.get_var(it, var)
         return self.to_numpy(v, var), it.fs
 
+    def subarray(self, it, code, cwd, k):
+        """value of the program's subarray accessor for language index k"""
+        return self.call(it, 'getsubarray', k)
+
+    def call(self, it, fname, k):
+        raise LangError('the program defines no accessor function')
+
     def get_var(self, it, var):
         if var not in it.env:
             raise LangError(f'the program does not define the variable {var}')
